@@ -1,6 +1,51 @@
-/- C15 — placeholder; theorems follow -/
-import SC.Buffer
+/-
+C15 — buffer size accounting is exact and the capacity of a backend-wide context is restored.
+-/
+import SC.Lemmas.BufSize
+import SC.Lemmas.BufCap
 namespace SC.Props
-open SC
-theorem C15_placeholder : True := trivial
+open SC SC.B
+
+/-- C15, exactness: in every state reachable from the initial state of a buffered class by ANY
+history — operations through root and child handles, `obj.buffered` and `buffer_backend(cap)`
+enters and exits in any nesting, `set_buffer_capacity`, new objects, outside writes and
+deletions, forced flushes, flushes that raise — the reported size equals the sum over the files
+currently in the buffer of: the encoded length of the buffered contents (serialized strategy) /
+1 if the buffered copy has unflushed modifications, else 0 (shared-memory strategy); and no
+file is in the buffer twice. -/
+theorem C15_size_exact (fam : Fam) (strategy : Buffering) (fl : List ((Int × Nat) × Nat))
+    (history : List Step) :
+    SizeOK (run (B.State.init fam strategy fl) history) :=
+  (keeps_run _ history).2.2 (sizeOK_init fam strategy fl)
+
+/-- the same as a one-step invariant (for every state, not only reachable ones) -/
+theorem C15_size_step (s : B.State) (st : Step) (h : SizeOK s) : SizeOK (step s st) :=
+  (keeps_step s st).2.2 h
+
+/-- C15, capacity: `buffer_backend(cap)` pushes the capacity in force ... -/
+theorem C15_enter_pushes (s : B.State) (cap : Option Nat) :
+    (enterCls s cap).1.capStack = (cap.map (fun _ => s.capacity)) :: s.capStack :=
+  (enterCls_pushes s cap).1
+
+/-- ... and leaving the context puts it back, whether or not the flush on exit (or the flush the
+restored, smaller capacity may force) raises. -/
+theorem C15_capacity_restored (s : B.State) (saved : Option Nat) (rest : List (Option Nat))
+    (hst : s.capStack = saved :: rest) :
+    (exitCls s).1.capStack = rest ∧
+    (exitCls s).1.capacity = (match saved with | some c => c | none => s.capacity) :=
+  ⟨(exitCls_restores s saved rest hst).1, (exitCls_restores s saved rest hst).2.1⟩
+
+/-- `set_buffer_capacity(n)` leaves capacity `n` also when the flush it forces raises -/
+theorem C15_set_capacity (s : B.State) (n : Nat) : (setCapacity s n).1.capacity = n :=
+  (setCapacity_capacity s n).1
+
+/-- non-vacuity: a history with a forced flush (capacity 0) on the shared-memory machine -/
+example :
+    let fam : Fam := ⟨[.requireStringKey, .jsonFormat], [.requireStringKey, .jsonFormat]⟩
+    let s := run (B.State.init fam .sharedMemory [])
+      [.openObj true 0 none, .enterCls (some 0), .call (.root 0) (.dSetitem (.s "a") (.leaf (.int 1))),
+       .call (.root 0) (.dSetitem (.s "b") (.leaf (.int 2)))]
+    s.size = 0 ∧ s.entries.length = 1 ∧ (s.store 0).isSome = true := by
+  decide
+
 end SC.Props
